@@ -81,7 +81,12 @@ static void verif_inputs_init(const char *path) {
 }
 void harness(void);
 static const char *verif_in_path;
+#ifdef NATIVE_GEN
+void __verif_global_ctors(void);
+#define VERIF_BEGIN() do { __verif_global_ctors(); verif_inputs_init(verif_in_path); } while(0)
+#else
 #define VERIF_BEGIN() verif_inputs_init(verif_in_path)
+#endif
 int main(int argc, char **argv) {
     if(argc < 2) { fprintf(stderr, "usage: %s <inputs>\n", argv[0]); return 2; }
     verif_in_path = argv[1];
@@ -93,7 +98,12 @@ int main(int argc, char **argv) {
 #define VERIF_INIT_S(T,n) { T verif_nd; n = verif_nd; }
 #define VERIF_INIT_A(T,n,k) { for(unsigned verif_i = 0; verif_i < (k); verif_i++) { T verif_nd; n[verif_i] = verif_nd; } }
 static void verif_inputs_init(void) { VERIF_INPUTS(VERIF_INIT_S, VERIF_INIT_A) }
+#ifdef VERIF_IRC
+void __verif_global_ctors(void);
+#define VERIF_BEGIN() do { __verif_global_ctors(); verif_inputs_init(); } while(0)
+#else
 #define VERIF_BEGIN() verif_inputs_init()
+#endif
 #define ASSUME(c) __CPROVER_assume(c)
 #define OBS(...) ((void)0)
 #ifdef WITNESS
